@@ -10,3 +10,5 @@ def run(ctx):
     print_numbers(ctx)
     from ..scen_misc import titles
     titles(ctx)
+    from ..conform import conformance
+    conformance(ctx, ['csv'])      # the references the obligations are stated against, compared with jawk::go on concrete runs (validates the oracles; never decides)
